@@ -13,7 +13,7 @@
    untouched / independent / varied_invalid / valid_is_parent_copy are defined in the model file
    next to `reach` and `varied`. *)
 From Coq Require Import List ZArith Bool.
-From DV Require Import Model.C02_Variation Proofs.C02_Variation Proofs.C02_Progress.
+From DV Require Import Model.C02_Variation Model.C02_Literal Proofs.C02_Variation Proofs.C02_Progress Proofs.C02_Literal.
 Import ListNotations.
 
 (* ---------------------------------------------------------------- varAnd *)
@@ -164,6 +164,23 @@ Theorem C02_varOr_total :
   exists s' off, @var_or G F T ltb leb add one mate_o mut_o lambda_ cxpb mutpb (start h0 d) pop = (s', inr off).
 Proof. exact or_total. Qed.
 Print Assumptions C02_varOr_total.
+
+(* ---------------------------------------------------------------- the literal transcription *)
+(* the statement-by-statement, index-based transcription of the two functions (Model/C02_Literal.v:
+   offspring[i - 1], range(1, len(offspring), 2), offspring.append ...) computes exactly the model
+   the theorems above speak about, for every input *)
+Theorem C02_varAnd_literal_eq :
+  forall G F T ltb mate_o mut_o cxpb mutpb s pop,
+  @var_and_lit G F T ltb mate_o mut_o cxpb mutpb s pop = var_and ltb mate_o mut_o cxpb mutpb s pop.
+Proof. exact var_and_lit_eq. Qed.
+Print Assumptions C02_varAnd_literal_eq.
+
+Theorem C02_varOr_literal_eq :
+  forall G F T ltb leb add one mate_o mut_o lambda_ cxpb mutpb s pop,
+  @var_or_lit G F T ltb leb add one mate_o mut_o lambda_ cxpb mutpb s pop
+  = var_or ltb leb add one mate_o mut_o lambda_ cxpb mutpb s pop.
+Proof. exact var_or_lit_eq. Qed.
+Print Assumptions C02_varOr_literal_eq.
 
 (* ---------------------------------------------------------------- non-vacuity *)
 (* a concrete run meeting every hypothesis: two parents (the second unevaluated), an in-place mate
